@@ -24,6 +24,7 @@ REGISTRY = {
     "C15": "config",
     "C17": "timeline",
     "C18": "transforms",
+    "C19": "analyzer",
     "C20": "enums",
     "C06": "scores",
     "C07": "frames",
